@@ -472,7 +472,7 @@ func (l *loader) load(dir, path string) *loadedPkg {
 	ctx := build.Default
 	ctx.CgoEnabled = false
 	lp := &loadedPkg{info: &types.Info{Types: map[ast.Expr]types.TypeAndValue{}, Defs: map[*ast.Ident]types.Object{},
-		Uses: map[*ast.Ident]types.Object{}, Selections: map[*ast.SelectorExpr]*types.Selection{}}}
+		Uses: map[*ast.Ident]types.Object{}, Selections: map[*ast.SelectorExpr]*types.Selection{}, Implicits: map[ast.Node]types.Object{}}}
 	pkgName := ""
 	for _, e := range ents {
 		name := e.Name()
@@ -556,6 +556,7 @@ type xinfo struct {
 	constErr map[types.Object]bool // functions whose every returned error is nil or an error with a compile-time constant text
 	nilable  map[types.Object]bool // functions whose first result (pointer / interface) is nil on some return
 	nils     []nilSite
+	alias    []aliasSite // fact F7 (sites_alias.go)
 }
 
 // Fact F6 — a call of a constructor whose payload is sent as a LINE (simple string `+…`, error `-…`, plain): the payload must not
@@ -2743,6 +2744,7 @@ func extractSites(repo string) ([]siteOut, *xinfo, error) {
 	x := scanExecutors(l)
 	scanConstErr(l, x)
 	scanNilable(l, x)
+	scanAlias(l, x)
 	for _, p := range sitePkgs {
 		path := "github.com/innovationb1ue/RedisGO/" + p
 		lp := l.cache[path]
